@@ -128,6 +128,26 @@ SEEDS = {
            "a newline containing '%' (EBCDIC code pages encode LF as 0x25)"),
  'C20-d': ('C20', "lexer slices sections by the header's length= (bytes) while indexing decoded characters",
            "a preamble or diff section containing a non-ASCII character that is not the last section"),
+ 'C01-e': ('C01', "str content longer than 250000 characters is encoded block-wise with a separate str.encode() per block",
+           "a preamble / metadata of more than 250000 characters under a BOM-emitting codec (utf-16, utf-32, utf-8-sig): a BOM lands inside the content at every block boundary"),
+ 'C02-e': ('C02', "indented content of at least 640000 encoded bytes is split with bytes.splitlines() instead of the section's encoded newline",
+           "write_preamble(indent >= 1) of >= 640000 bytes under UTF-16/32, or containing a bare CR"),
+ 'C03-e': ('C03', "content read in pieces of at most 2 MiB; lines are counted per piece",
+           "a non-indented content section over 2 MiB with a line straddling the 2 MiB mark, followed by another section: later line numbers one too high"),
+ 'C05-e': ('C05', "DOM writer infers type=binary when an untyped diff contains a line 'Binary files X and Y differ'",
+           "an untyped diff with that phrase on a line of its own"),
+ 'C06-e': ('C06', "DOM writer batches writes; a single write of >= 400000 bytes bypasses the batch without flushing it",
+           "a canonical file with one content section of at least 400000 bytes"),
+ 'C07-e': ('C07', "content over 1 MiB read chunk-wise, whole lines only; the carried partial line is never flushed or checked",
+           "a section over 1 MiB cut mid-line beyond the first MiB (or with a slightly too small length)"),
+ 'C08-e': ('C08', "option value regex rewritten with a nested quantifier (?:[A-Za-z0-9]+|[/._-]+)+$",
+           "a value of 27+ alphanumerics followed by one illegal character: exponential backtracking, the reader does not return"),
+ 'C09-e': ('C09', "indented content of at least 300000 bytes is written lazily after the header; b' ' * indent is evaluated after the header is out",
+           "write_preamble(>= 300000 bytes, indent=4.0): TypeError after the header was written and the order state advanced"),
+ 'C13-e': ('C13', "diffs over 1 MiB are transcoded in slices cut after a raw 0x0A byte",
+           "a little-endian UTF-16/32 diff over 1 MiB: the slice cut splits a code unit, the file silently gets no stats"),
+ 'C18-e': ('C18', "stats of diffs of at least 250000 bytes are memoised in a module-level dict and handed out by reference",
+           "two file sections with equal diffs of at least 250000 bytes, generate_stats on both"),
  'C14-c': ('C14', "num_processed_lines returns the line of the last finalised hunk instead of the loop position",
            "ignore_garbage=True with non-hunk lines after the last hunk, or no hunks at all"),
 }
